@@ -210,13 +210,16 @@ def run(ctx, rep):
     if not bs:
         rep.error("R-C08-endif", FN + " not found")
         return
-    b = bs[0]
+    # helpers of the same file are part of the transition function: evaluate the body with them spliced in
+    from vlib.inline import inlined
+    n_own = len(bs[0].f["locals"])
+    b = inlined(ctx.prog, bs[0])
     where = "%s:%d" % (b.f["file"], b.f["line"])
     head, entry = find_loop(b)
     if head is None:
         r.finding("shape|no-token-loop", where, "no loop over the input tokens found")
         return
-    st = state_locals(b, head, entry)
+    st = [l for l in state_locals(b, head, entry) if l < n_own]
     if not st or len(st) > 3:
         r.finding("shape|state", where, "expected 1-3 named boolean state variables, found %d" % len(st))
         return
